@@ -194,7 +194,7 @@ fn dot_structure_case(ctx: &mut Ctx, n: usize, directed: bool, edges: Vec<E>, th
     ctx.nontrivial = !edges.is_empty();
     let abs: Abs<String> = Abs::new(n, directed, edges.iter().enumerate().map(|(k, &(a, b))| (a, b, format!("e{}\"x\\{}", k, k))).collect());
     let masks: Vec<u32> = (0..32).collect();
-    let ranks: Vec<u32> = if thorough { (0..5).collect() } else { vec![0, 3] };
+    let ranks: Vec<u32> = (0..5).collect();
     macro_rules! go {
         ($T:ty) => {{
             // node weights are strings too
